@@ -136,25 +136,137 @@ func (w *world) submitTo(d *Daemon, where string, req map[string]interface{}) (s
 	return l, final, id
 }
 
+// The four combinations of allowruntimeauth x allowruntimepod (the other two flags gate the
+// non-secret kube_image / kube_params and go along).  Types without runtime authentication get a
+// configured kubeconfig file.
+type kubeType struct {
+	name                string
+	auth, pod, cmd, par bool
+}
+
+var kubeTypes = []kubeType{
+	{"kube", true, true, true, true},
+	{"kubea", true, false, false, false},
+	{"kubep", false, true, true, true},
+	{"kube0", false, false, false, false},
+}
+
+func (t kubeType) coq() string {
+	return fmt.Sprintf("(mkflags %s %s %s %s)", CoqBool(t.auth), CoqBool(t.pod), CoqBool(t.cmd), CoqBool(t.par))
+}
+
+func kubeTypesYAML(dir string) string {
+	static := filepath.Join(dir, "static.kubeconfig")
+	_ = os.WriteFile(static, []byte(`apiVersion: v1
+kind: Config
+clusters:
+- name: cl
+  cluster: {server: "https://127.0.0.1:1"}
+contexts:
+- name: c
+  context: {cluster: cl, user: u, namespace: ns}
+current-context: c
+users:
+- name: u
+  user: {token: configured-not-a-parameter}
+`), 0o600)
+	var sb strings.Builder
+	for _, t := range kubeTypes {
+		fmt.Fprintf(&sb, "- work-kubernetes:\n    worktype: %s\n    namespace: ns\n    image: img\n    allowruntimeauth: %v\n    allowruntimepod: %v\n    allowruntimecommand: %v\n    allowruntimeparams: %v\n",
+			t.name, t.auth, t.pod, t.cmd, t.par)
+		if t.auth {
+			sb.WriteString("    authmethod: runtime\n")
+		} else {
+			fmt.Fprintf(&sb, "    authmethod: kubeconfig\n    kubeconfig: %s\n", static)
+		}
+	}
+	return sb.String()
+}
+
+const goodKubeconfigFmt = `apiVersion: v1
+kind: Config
+clusters:
+- name: cl
+  cluster: {server: "https://127.0.0.1:1"}
+contexts:
+- name: c
+  context: {cluster: cl, user: u, namespace: ns}
+current-context: c
+users:
+- name: u
+  user: {token: %s}
+`
+
+// every status / list reply of node d: marker scan (by the tap) + the two fields of every
+// Kubernetes unit shown
+func (w *world) kubeLook(d *Daemon, ids []string, rec interface{}) {
+	if m, raw, err := w.listRaw(d, d.ID+":list-kube"); err == nil {
+		for uid, st := range m {
+			w.kubeReplyCheck("list", uid, raw, st, rec)
+		}
+	}
+	for _, id := range ids {
+		jb, _ := json.Marshal(map[string]interface{}{"command": "work", "subcommand": "status", "unitid": id})
+		l, err := oneShot(w.tap, d.Sock, d.ID+":status-kube", string(jb))
+		var st map[string]interface{}
+		if err == nil && json.Unmarshal([]byte(l), &st) == nil {
+			w.kubeReplyCheck("status", id, l, st, rec)
+		}
+	}
+	w.checkLeaks(rec)
+	w.checkFrags(rec)
+}
+
 func (w *world) kubePhase(cf *CaseFile) {
 	r := w.c.Rng
-	n := 10
+	n := 12
 	if w.c.Thorough() {
-		n = 80
+		n = 96
 	}
 	for i := 0; i < n && w.fatal == ""; i++ {
-		cfg, ckind := kubeconfig(r, i)
+		t := kubeTypes[i%len(kubeTypes)]
+		cfg, ckind := kubeconfig(r, i/4+i)
 		pod, pkind := kubepod(r, i/2+i)
-		rec := map[string]interface{}{"secret_kube_config": ckind, "secret_kube_pod": pkind}
-		req := map[string]interface{}{"command": "work", "subcommand": "submit", "node": "localhost", "worktype": "kube", "secret_kube_config": cfg}
-		if pod != "" {
+		hasConfig := t.auth || i%8 >= 4
+		hasPod := pod != ""
+		hasNS := i%3 == 0
+		hasCmd := !hasPod && i%2 == 0
+		hasPar := !hasPod && i%4 == 1
+		req := map[string]interface{}{"command": "work", "subcommand": "submit", "node": "localhost", "worktype": t.name}
+		if hasConfig {
+			req["secret_kube_config"] = cfg
+		} else {
+			ckind = "none"
+		}
+		if hasPod {
 			req["secret_kube_pod"] = pod
 		}
+		if hasNS {
+			req["kube_namespace"] = "ZQP" + ident(r, 8)
+		}
+		if hasCmd {
+			req["kube_image"] = "ZQP" + ident(r, 8)
+		}
+		if hasPar {
+			req["kube_params"] = "ZQP" + ident(r, 8)
+		}
+		rec := map[string]interface{}{"worktype": t.name, "allowruntimeauth": t.auth, "allowruntimepod": t.pod, "secret_kube_config": ckind, "secret_kube_pod": pkind,
+			"kube_namespace": hasNS, "kube_image": hasCmd, "kube_params": hasPar}
+		w.im.Hist("kube:type:" + t.name)
 		w.im.Hist("kube:config:" + ckind)
 		w.im.Hist("kube:pod:" + pkind)
-		w.im.Count(fmt.Sprintf("kube %d %s %s", i, cfg, pod), true)
+		w.im.Count(fmt.Sprintf("kube %d %s %s %s", i, t.name, cfg, pod), true)
 		// (1) directly on B
-		_, _, id := w.submitTo(w.B, "B:submit-kube", req)
+		l, _, id := w.submitTo(w.B, "B:submit-kube", req)
+		notAllowed := strings.HasPrefix(l, "ERROR") && strings.Contains(l, "provided but not allowed")
+		cf.Add(fmt.Sprintf("CKubeSubmit %s %s %s %s %s %s %s", t.coq(), CoqBool(hasConfig), CoqBool(hasPod), CoqBool(hasNS), CoqBool(hasCmd), CoqBool(hasPar), CoqBool(notAllowed)),
+			fmt.Sprintf("kube submit to type %s: config=%v pod=%v ns=%v image=%v params=%v -> %q", t.name, hasConfig, hasPod, hasNS, hasCmd, hasPar, clipS(l, 120)))
+		if notAllowed {
+			w.im.Hist("kube:refused-not-allowed")
+			if id != "" {
+				w.im.Violate("a Kubernetes submission refused as not allowed left unit "+id+" behind", "refusal-left-state", rec)
+			}
+		}
 		time.Sleep(150 * time.Millisecond) // the start attempt fails in the background
 		if id != "" {
 			jb, _ := json.Marshal(map[string]interface{}{"command": "work", "subcommand": "status", "unitid": id})
@@ -166,68 +278,124 @@ func (w *world) kubePhase(cf *CaseFile) {
 					if b, err := os.ReadFile(filepath.Join(w.B.UnitsDir(), id, "status")); err == nil {
 						var disk struct{ ExtraData kubeShown }
 						if json.Unmarshal(b, &disk) == nil {
-							if disk.ExtraData.KubeConfig != "" {
-								w.im.Hist("kube:status-file-holds-the-kubeconfig(unredacted,as-modelled)")
+							if disk.ExtraData.KubeConfig != "" || disk.ExtraData.KubePod != "" {
+								w.im.Hist("kube:status-file-holds-the-secrets(unredacted,as-modelled)")
 							}
 							mk := func(k kubeShown) string {
 								return fmt.Sprintf("(mkkube %s %s %s %s)", HxS(k.KubeConfig), HxS(k.KubePod), HxS(k.KubeNamespace), HxS(k.Image))
 							}
-							cf.Add("CKube "+mk(disk.ExtraData)+" "+mk(*sh), fmt.Sprintf("kube unit %s on B: config %s, pod %s", id, ckind, pkind))
+							cf.Add("CKube "+t.coq()+" "+mk(disk.ExtraData)+" "+mk(*sh), fmt.Sprintf("kube unit %s of type %s on B: config %s, pod %s", id, t.name, ckind, pkind))
 						}
 					}
 				}
 			}
-			if m, raw, err := w.listRaw(w.B, "B:list-kube"); err == nil {
-				if st, ok := m[id]; ok {
-					w.kubeReplyCheck("list", id, raw, st, rec)
-				}
-			}
+			w.kubeLook(w.B, nil, rec)
 		}
 		// (2) through A over TLS: A's replies carry what B answered
 		req["node"], req["tlsclient"] = "c19b", "cli"
 		_, _, aid := w.submitTo(w.A, "A:submit-kube", req)
 		time.Sleep(150 * time.Millisecond)
 		if aid != "" {
-			jb, _ := json.Marshal(map[string]interface{}{"command": "work", "subcommand": "status", "unitid": aid})
-			l, _ := oneShot(w.tap, w.A.Sock, "A:status-kube", string(jb))
-			var st map[string]interface{}
-			if json.Unmarshal([]byte(l), &st) == nil {
-				if v, ok := viewOf(st); ok {
-					for k := range v.Params {
-						if oracleSecret(k) {
-							w.im.Violate("status at the submitting node shows "+k+" of a Kubernetes submission", "secret-key-shown:status", rec)
-						}
-					}
-				}
-			}
-			_, _, _ = w.listRaw(w.A, "A:list-kube")
-			if m, raw, err := w.listRaw(w.B, "B:list-kube"); err == nil {
-				for uid, st := range m {
-					w.kubeReplyCheck("list", uid, raw, st, rec)
-				}
-			}
+			w.kubeLook(w.A, []string{aid}, rec)
+			w.kubeLook(w.B, nil, rec)
 		}
-		// (3) without a TLS profile the submission must not leave A
-		delete(req, "tlsclient")
-		before := dirEntries(w.A.UnitsDir())
-		l, _, nid := w.submitTo(w.A, "A:submit-kube-no-tls", req)
-		if nid != "" || !strings.HasPrefix(l, "ERROR") || strings.Join(before, ",") != strings.Join(dirEntries(w.A.UnitsDir()), ",") {
-			w.im.Violate("a Kubernetes submission with secret_kube_config and no TLS profile was accepted: "+l, "secret-accepted-without-tls", rec)
+		// (3) without a TLS profile a submission with a secret must not leave A
+		if hasConfig || hasPod {
+			delete(req, "tlsclient")
+			before := dirEntries(w.A.UnitsDir())
+			l, _, nid := w.submitTo(w.A, "A:submit-kube-no-tls", req)
+			if nid != "" || !strings.HasPrefix(l, "ERROR") || strings.Join(before, ",") != strings.Join(dirEntries(w.A.UnitsDir()), ",") {
+				w.im.Violate("a Kubernetes submission with a secret parameter and no TLS profile was accepted: "+l, "secret-accepted-without-tls", rec)
+			}
 		}
 		w.checkLeaks(rec)
 		w.checkFrags(rec)
-		// clean up both nodes
-		for _, d := range []*Daemon{w.A, w.B} {
-			if m, _, err := w.listRaw(d, d.ID+":list"); err == nil {
-				for uid := range m {
-					jb, _ := json.Marshal(map[string]interface{}{"command": "work", "subcommand": "force-release", "unitid": uid})
-					_, _ = oneShot(w.tap, d.Sock, d.ID+":release", string(jb))
-				}
-			}
-		}
+		w.kubeCleanup()
 		w.checkLeaks(rec)
 		w.checkFrags(rec)
 	}
+	if w.fatal == "" {
+		w.kubeLifecycle()
+	}
+}
+
+func clipS(s string, n int) string {
+	if len(s) > n {
+		return s[:n] + "…"
+	}
+	return s
+}
+
+func (w *world) kubeCleanup() {
+	for _, d := range []*Daemon{w.A, w.B} {
+		if m, _, err := w.listRaw(d, d.ID+":list"); err == nil {
+			for uid := range m {
+				jb, _ := json.Marshal(map[string]interface{}{"command": "work", "subcommand": "force-release", "unitid": uid})
+				_, _ = oneShot(w.tap, d.Sock, d.ID+":release", string(jb))
+			}
+		}
+	}
+}
+
+// from submission to release: one unit of every Kubernetes work type with every secret it allows,
+// created directly on B and through A; status + list on both nodes after submission, after cancel,
+// after a restart of B (SIGKILL) and of A, and the release at the end
+func (w *world) kubeLifecycle() {
+	r := w.c.Rng
+	rec := map[string]interface{}{"what": "Kubernetes units of the four work types from submission to release"}
+	var bIDs, aIDs []string
+	for _, t := range kubeTypes {
+		req := map[string]interface{}{"command": "work", "subcommand": "submit", "node": "localhost", "worktype": t.name}
+		if t.auth {
+			req["secret_kube_config"] = fmt.Sprintf(goodKubeconfigFmt, "ZQS"+ident(r, 12))
+			req["kube_namespace"] = "ZQP" + ident(r, 6)
+		}
+		if t.pod {
+			req["secret_kube_pod"] = fmt.Sprintf("apiVersion: v1\nkind: Pod\nmetadata: {name: p}\nspec:\n  containers:\n  - name: worker\n    image: img\n    env: [{name: PASSWORD, value: %s}]\n", "ZQS"+ident(r, 12))
+		} else if t.cmd {
+			req["kube_image"] = "ZQP" + ident(r, 6)
+		}
+		if _, _, id := w.submitTo(w.B, "B:submit-kube", req); id != "" {
+			bIDs = append(bIDs, id)
+		} else {
+			w.im.Violate("a Kubernetes submission with the parameters its work type allows was not accepted ("+t.name+")", "harness-stuck", rec)
+		}
+		req["node"], req["tlsclient"] = "c19b", "cli"
+		if _, _, id := w.submitTo(w.A, "A:submit-kube", req); id != "" {
+			aIDs = append(aIDs, id)
+		}
+		w.im.Count("kube lifecycle "+t.name, true)
+	}
+	time.Sleep(300 * time.Millisecond)
+	look := func(stage string) {
+		w.im.Hist("kube-lifecycle:" + stage)
+		w.kubeLook(w.B, bIDs, rec)
+		w.kubeLook(w.A, aIDs, rec)
+	}
+	look("after-submission")
+	for _, id := range bIDs {
+		jb, _ := json.Marshal(map[string]interface{}{"command": "work", "subcommand": "cancel", "unitid": id})
+		_, _ = oneShot(w.tap, w.B.Sock, "B:cancel-kube", string(jb))
+	}
+	for _, id := range aIDs {
+		jb, _ := json.Marshal(map[string]interface{}{"command": "work", "subcommand": "cancel", "unitid": id})
+		_, _ = oneShot(w.tap, w.A.Sock, "A:cancel-kube", string(jb))
+	}
+	look("after-cancel")
+	w.B.Kill()
+	if err := w.B.Start(); err != nil {
+		w.fatal = "restart of B: " + err.Error()
+		return
+	}
+	w.A.Kill()
+	if err := w.A.Start(); err != nil {
+		w.fatal = "restart of A: " + err.Error()
+		return
+	}
+	w.waitRoute()
+	look("after-restart")
+	w.kubeCleanup()
+	look("after-release")
 }
 
 // Outside the property text (informational): what the debug logs and the files on disk hold.
